@@ -164,8 +164,19 @@ def check_pair(ctx, case):
         t_running, t_started = h.timer.running, h.timer.starts > starts0
 
         if exp is None:
-            if not (how == "raised" and isinstance(exc, InvalidEventError)):
+            # "treats the pair as not allowed": either the provider refuses it (InvalidEventError) or it discards the event without performing
+            # any action for it (what the reactor does with a user primitive that is still queued when the provider has aborted, Sta13);
+            # in both cases nothing of Tables 9-6..9-9 may happen on its behalf (checked below)
+            refused = how == "raised" and isinstance(exc, InvalidEventError)
+            discarded = how != "raised" and not any(t[1] == event for t in h.transitions) and dul.to_provider_queue.empty() and dul.event_queue.empty()
+            if not (refused or discarded):
                 ctx.fail("undefined-pair-accepted", label, f"pair not in Table 9-10 but outcome={how} exc={exc!r} transitions={h.transitions}")
+                return
+            ctx.cls("undefined:refused" if refused else "undefined:discarded")
+            if discarded and state == "Sta13" and h.transitions in ([], [("Sta13", "Evt17", "AR-5", "Sta1")]):
+                # the reactor closes an idle socket itself in Sta13: that transition belongs to the connection loss, not to the discarded event
+                if wire or inds:
+                    ctx.fail("undefined-pair-side-effect", label, f"discarded pair had side effects: sent {wire} indications {inds}")
                 return
             side = []
             if h.state != state:
